@@ -4,7 +4,7 @@
 import json
 import vlib
 
-STATIC_PROPS = {"C02", "C03", "C04", "C05", "C12", "C15"}
+STATIC_PROPS = {"C02", "C03", "C04", "C05", "C06", "C07", "C08", "C12", "C13", "C15"}
 
 COMMON_ASSUMPTIONS = [
     "A1 the crate is built natively (rlib from /repo/src/lib.rs with the verification cfg); the wasm32 artefact itself is not exercised",
@@ -46,7 +46,7 @@ def run_static(prop, seed, tier, replay):
         "exhaustive": False,
     }
     cases = {rid: dict(c, key=[c["code"], c["config"]]) for rid, c in res["cases"].items()}
-    return {"verdicts": vs, "cases": cases, "level": "model_checking", "coverage": cov,
+    return {"verdicts": vs, "cases": cases, "level": {"C08": "exploration", "C13": "fault_enumeration"}.get(prop, "model_checking"), "coverage": cov,
             "assumptions": COMMON_ASSUMPTIONS}
 
 
